@@ -160,7 +160,9 @@ while True:
 	}
 }
 
-func (l *lab) sysctl(node int, kv string) { run("ip", "netns", "exec", l.ns[node], "sysctl", "-qw", kv) }
+func (l *lab) sysctl(node int, kv string) {
+	run("ip", "netns", "exec", l.ns[node], "sysctl", "-qw", kv)
+}
 
 type c13Hop struct {
 	TTL    int     `json:"ttl"`
@@ -307,11 +309,11 @@ func fmtC13(hops []c13Hop) string {
 }
 
 type c13Cfg struct {
-	name    string
-	n       int
-	silent  int
-	noSack  bool
-	run     func(l *lab) (got c13Out, problem string)
+	name   string
+	n      int
+	silent int
+	noSack bool
+	run    func(l *lab) (got c13Out, problem string)
 }
 
 func checkC13() fw.Check {
